@@ -444,6 +444,9 @@ func c07Wire(c *ctx, which string) {
 			}
 			cwg.Wait()
 			c.R.Count("unrouted_requests", unrouted.Load())
+			if which == "c07" {
+				c07NoRoutePages(c, rg)
+			}
 			if which == "c20" {
 				c20CheckLog(c, rg)
 			}
@@ -884,4 +887,40 @@ func c20CheckLog(c *ctx, rg *c07Rig) {
 		}
 		return true
 	})
+}
+
+// c07NoRoutePages: the operator withdraws, replaces and restores the no-route page while fabio runs: after each change
+// (confirmed by the KV watcher coming back) an unrouted request must get the status and the page configured now.
+func c07NoRoutePages(c *ctx, rg *c07Rig) {
+	pages := []string{"", "<html>second page</html>", "", c07NoRouteHTML, "<p>third</p>", c07NoRouteHTML}
+	for i, page := range pages {
+		var idx uint64
+		if page == "" {
+			idx = rg.rg.agent.DeleteKV("fabio/noroute.html")
+		} else {
+			idx = rg.rg.agent.PutKV("fabio/noroute.html", page)
+		}
+		if !rg.rg.agent.WaitKVQuery("fabio/noroute.html", idx, barrierWatchdog) {
+			c.R.Inconcl("the no-route page watcher did not come back with index %d", idx)
+			return
+		}
+		// the watcher has handed the value over; the handler publishes it right after: a few tries
+		var resp *rawhttp.Response
+		ok := false
+		for try := 0; try < 40 && !ok; try++ {
+			raw := fmt.Sprintf("GET /nowhere/%d HTTP/1.1\r\nHost: unrouted-%d.invalid\r\nConnection: close\r\n\r\n", i, i)
+			resp = rawhttp.Do(rawhttp.Dial{Addr: rg.plain, Timeout: 20 * time.Second}, []byte(raw), "GET")
+			ok = resp.Err == nil && resp.Status == 418 && string(resp.Body) == page
+			if !ok {
+				time.Sleep(50 * time.Millisecond)
+			}
+		}
+		c.R.Eval(1)
+		c.R.Nontrivial(fmt.Sprintf("noroute-page-%s-%d", rg.hc.Name, i))
+		if !ok {
+			c.R.Violate("c07:noroute-page-stale", fmt.Sprintf("step %d: the configured no-route page is now %q, but an unrouted request still gets status %d and page %.80q (err %v) 2s after fabio fetched the change", i, page, resp.Status, resp.Body, resp.Err), map[string]any{"pages": pages[:i+1]})
+			return
+		}
+	}
+	c.R.Count("noroute_page_changes", int64(len(pages)))
 }
